@@ -90,6 +90,35 @@ pub fn lits() -> &'static Lits {
     })
 }
 
+/// a nesting depth / length from a heavy tail: powers of two and their neighbours, every source
+/// literal in 16..=2000 and its neighbours (limits and guards are written as literals)
+pub fn depth_tail(r: &mut Rng) -> usize {
+    let mut c: Vec<usize> = vec![20, 33, 63, 64, 65, 100, 127, 128, 129, 130, 200, 255, 256, 257, 258, 300, 400, 511, 512, 513, 1000];
+    for v in lits().ints.iter() {
+        if *v >= 16 && *v <= 2000 {
+            c.push(*v as usize);
+        }
+    }
+    *r.pick(&c)
+}
+
+/// wrap `inner` into `d` nested lists, leaving a sibling atom behind at some levels on the way out
+/// (so that a level closed too early or too late changes where the siblings end up)
+pub fn deep_wrap(r: &mut Rng, inner: SItem, d: usize) -> SItem {
+    let mut cur = inner;
+    for level in 0..d {
+        let mut v = vec![cur];
+        if r.chance(1, 6) || level + 1 == d {
+            v.push(SItem::Int(level as i32));
+        }
+        if r.chance(1, 12) {
+            v.insert(0, SItem::Bool(level % 2 == 0));
+        }
+        cur = SItem::List(v);
+    }
+    cur
+}
+
 #[derive(Clone, Copy, Debug, PartialEq)]
 pub enum Vals {
     /// values from the boundary pools only
